@@ -28,7 +28,8 @@ CHECKS = {
             'nests.', '5/C03'),
     'C04': ('independent reference encoder (vmon.refcodec) run beside the '
             'real encoder on every generated object, byte-for-byte '
-            'comparison (decimal fields by decoded meaning)',
+            'comparison (decimal fields included: the pair the value itself '
+            'carries)',
             'Held on the union of the C01/C02/C03/C18 corpora in both legacy '
             'modes; catches symmetric encode/decode errors that round-trip '
             'checks cannot see.', '5/C04'),
@@ -126,19 +127,28 @@ EXTRA = {
     'C01': '; failing decodes/encodes interleaved with every case, caller-'
            'side in-place changes, neighbouring-type probes per argument, '
            'round trip at the deepest nesting the encoder accepts, shards '
-           'under -W error / DEBUG logging / -O / foreign environment',
+           'under -W error -bb / DEBUG logging / -O / foreign environment, '
+           'surrogate-escape probes',
     'C02': '; failing operations interleaved, in-place change of the '
-           'headers table then re-marshal, configuration shards',
-    'C03': '; poisoned-table fail-then-retry on the same object, five '
-           'narrow decimal contexts, configuration shards',
-    'C04': '; refused marshals interleaved, configuration shards',
+           'headers table then re-marshal, consumer changes the decoded '
+           'table in place and the same bytes are decoded again, '
+           'configuration shards',
+    'C03': '; poisoned-table fail-then-retry on the same object, equal '
+           'twins (1 / 1.0 / True / Decimal(1), 11.5 / 11.50, other fold) '
+           'encoded first, five narrow decimal contexts, configuration '
+           'shards',
+    'C04': '; refused marshals, broker greetings, equal twins and look-'
+           'alike frames (same channel and payload size, other kind) '
+           'interleaved, configuration shards',
     'C05': '; failing decodes (incl. 48-level deep faults) interleaved, '
            'frames above the default frame-max, a reference-written session '
-           'of real broker / client frames, configuration shards',
+           'of real broker / client frames, consumer changes decoded results in '
+           'place and decodes the same bytes again, homogeneous arrays, one '
+           'reading of tag L per process, configuration shards',
     'C06': '; frames above frame-max in streams, one bytearray consumed in '
            'place, every successful decode of a mutated input repeated with '
-           'the bytes after its consumed count removed / replaced, '
-           'configuration shards',
+           'the bytes after its consumed count removed / replaced, consumer '
+           'changes every decoded frame in place, configuration shards',
     'C07': '; payload-less and > frame-max frames, prefixes of frames the '
            'decoder must refuse, one bytearray grown in place, configuration '
            'shards incl. python -O',
@@ -150,9 +160,11 @@ EXTRA = {
            'as the channel, encoder output that the decoder refuses is a '
            'violation, narrow decimal contexts, in-place change then '
            're-marshal, configuration shards',
-    'C11': '; 12-element int arrays, toggle by direct assignment, '
-           'configuration shards',
+    'C11': '; 12-element int arrays, toggle by direct assignment, refused '
+           'encodes of eleven kinds and decoded broker greetings between '
+           'toggles, equal twins encoded first, configuration shards',
     'C12': '; colliding truncated keys, in-place change vs fresh object, '
+           'second encoding after memo-evicting churn and equal twins, '
            'decimal contexts, configuration shards',
     'C13': '; three marshal attempts per object, shards under -O / -W error '
            '/ DEBUG logging',
@@ -169,10 +181,20 @@ EXTRA = {
            'configuration shards',
     'C18': '; refused marshals interleaved, configuration shards',
     'C19': '; objects printed before each evaluation, non-argument and '
-           'foreign argument names, configuration shards',
-    'C20': '; frames above frame-max, refused marshals interleaved, '
-           'configuration shards',
+           'foreign argument names, fresh processes whose first use is the '
+           'abstract base classes, configuration shards',
+    'C20': '; frames above frame-max, refused marshals interleaved, one '
+           'receive buffer changed in place between peeks, configuration '
+           'shards',
 }
+
+for _k in EXTRA:
+    if _k not in ('C14', 'C15', 'C17'):
+        EXTRA[_k] += ('; live dictionary: constants read from the source of '
+                      'the tree under test are fed to the generators')
+EXTRA['C15'] = ('; both readings (fold) of ambiguous wall-clock times as '
+                'aware datetimes sharing one tzinfo, back to back; UTC '
+                'offsets that are not whole minutes')
 
 NOTE = ('Trusted base: CPython 3.12 sys.monitoring, struct/decimal/datetime; '
         'the hand-transcribed tables in vmon/refspec.py and the reference '
@@ -225,7 +247,9 @@ def main():
         'notes': 'exit 0 held / exit 1 VIOLATION / exit 2 INCONCLUSIVE; '
                  'KNOWN_FINDINGS.txt lists fixed and known findings; '
                  'selftest/ holds the mutation catalogue, seeded/ the '
-                 'independently written breaks.',
+                 'independently written breaks, benign/ independently '
+                 'written behaviour-preserving changes on which every check '
+                 'must stay silent.',
     }
     with open(os.path.join(HERE, 'MANIFEST.json'), 'w') as f:
         json.dump(man, f, indent=1)
